@@ -25,16 +25,18 @@ func eexec(intp *Interpreter) error {
 	if intp.Stack[len(intp.Stack)-1] != nil {
 		return &postScriptError{eTypecheck, "eexec"}
 	}
-	intp.Stack = intp.Stack[:len(intp.Stack)-1]
-
 	k := len(intp.DictStack)
-	intp.DictStack = append(intp.DictStack, intp.SystemDict)
+	if k >= maxDictStackDepth {
+		return &postScriptError{eDictstackoverflow, "eexec"}
+	}
+	intp.Stack = intp.Stack[:len(intp.Stack)-1]
 
 	s := intp.scanners[len(intp.scanners)-1]
 	err := s.BeginEexec(eexecN)
 	if err != nil {
 		return err
 	}
+	intp.DictStack = append(intp.DictStack, intp.SystemDict)
 	err = intp.executeScanner(s)
 	if err != nil && err != io.EOF {
 		return err
